@@ -389,7 +389,17 @@ var c20SweepItems = []swItem{
 		ctx, cancel := context.WithCancel(context.Background())
 		defer cancel()
 		env.m.WhenQuery(func(c am.Clock) bool { return false }, ctx)
-		return ok()
+		ch := env.m.WhenQuery(func(c am.Clock) bool { return am.IsActiveTick(c["D"]) }, ctx)
+		if env.phase == 1 || env.phase == 4 {
+			return ok()
+		}
+		env.m.Add1("D", nil)
+		select {
+		case <-ch:
+			return ok()
+		case <-time.After(time.Second):
+			return wrong("channel not closed after the query became true")
+		}
 	}},
 	{21, "Machine.WhenQuery/nil-ctx", phAll, func(env *swEnv) (int, string) {
 		ch := env.m.WhenQuery(func(c am.Clock) bool { return am.IsActiveTick(c["D"]) }, nil)
@@ -883,6 +893,22 @@ var c20SweepItems = []swItem{
 		}
 		am.NewTimeIndex(am.S{"A"}, nil)
 		am.NewTimeIndex(nil, nil)
+		return ok()
+	}},
+	{67, "Machine.WhenQuery/released-by-Dispose", []int{0}, func(env *swEnv) (int, string) {
+		ctx, cancel := context.WithCancel(context.Background())
+		defer cancel()
+		ch1 := env.m.WhenQuery(func(c am.Clock) bool { return false }, nil)
+		ch2 := env.m.WhenQuery(func(c am.Clock) bool { return false }, ctx)
+		env.m.Dispose()
+		<-env.m.WhenDisposed()
+		for i, ch := range []<-chan struct{}{ch1, ch2} {
+			select {
+			case <-ch:
+			case <-time.After(time.Second):
+				return wrong("WhenQuery channel %d still open after Dispose", i+1)
+			}
+		}
 		return ok()
 	}},
 }
